@@ -18,7 +18,20 @@ pub struct H {
     pub det: Option<rand::rngs::StdRng>,
 }
 
+/// every other string handed to the library is a CLONE of the constructed one (a clone is an equal, independent value)
 pub fn ns(s: &str) -> NormalizedString {
+    use std::sync::atomic::{AtomicUsize, Ordering};
+    static N: AtomicUsize = AtomicUsize::new(0);
+    let n = ns0(s);
+    if N.fetch_add(1, Ordering::Relaxed) % 2 == 1 {
+        let c = n.clone();
+        drop(n);
+        c
+    } else {
+        n
+    }
+}
+fn ns0(s: &str) -> NormalizedString {
     match NormalizedString::new(s) {
         Ok(n) => n,
         Err(e) => {
@@ -110,6 +123,7 @@ impl H {
         }
         self.det_inject("PrivateKey", 32, bkey.is_some());
         let consumed = o;
+        let v = if o % 2 == 1 { let c = v.clone(); drop(v); c } else { v };
         let r = guard(move || v.into_proof());
         let d = draws();
         match r {
